@@ -212,6 +212,130 @@ def shift(ctx):
 
 
 def body(ctx):
+    """R01.5, decided by the shape of today's code and, where that shape is not there, by linear arithmetic over the path's
+    tests (body_lin): each is sufficient; a violation is reported when neither establishes the clauses."""
+    from .c06 import _Rec
+    a = _Rec(ctx)
+    try:
+        _body_shape(a)
+    except AnalysisError as e:
+        a.fail("R01.5", "cannot-establish|shape", str(e))
+    if not a.failed():
+        return a.replay(ctx)
+    b = _Rec(ctx)
+    try:
+        body_lin(b)
+    except AnalysisError as e:
+        b.fail("R01.5", "cannot-establish|arithmetic", str(e))
+    if not b.failed() or len(b.failed()) < len(a.failed()):
+        b.replay(ctx)
+        ctx.ob("R01.5", "decided-by-arithmetic", True, "parse_body does not have today's shape (%d clause(s) not matched); decided by linear arithmetic over the path's tests" % len(a.failed()))
+        return
+    a.replay(ctx)
+    for (rule, key, ok, msg, loc, witness) in b.failed():
+        ctx.ob(rule, "arithmetic|" + key, ok, "(arithmetic form) " + msg, loc, witness)
+
+
+def _body_taken(lf):
+    """The request's body is the first content_length bytes of body_vec and body_vec keeps the rest:
+    `body_vec.drain(..cl)` (collected), or `let rest = body_vec.split_off(cl); mem::replace(&mut body_vec, rest)`."""
+    def is_cl(t):
+        t = look(t)
+        return t[0] == "cast" and is_call(look(t[1]), "common::headers::Headers::content_length")
+    dr = [e for e in lf.events if e[0] == "call" and last_seg(e[3]) == "drain" and self_field(e[4][2][0], "body_vec")]
+    if len(dr) == 1:
+        r = look(dr[0][4][2][1])
+        return r[0] == "agg" and r[1].startswith("std::ops::RangeTo") and not r[1].startswith("std::ops::RangeToInclusive") and is_cl(r[3][0])
+    so = [e for e in lf.events if e[0] == "call" and last_seg(e[3]) == "split_off" and "Vec" in e[3] and self_field(e[4][2][0], "body_vec")]
+    rp = [e for e in lf.events if e[0] == "call" and e[3] in ("std::mem::replace",) and self_field(e[4][2][0], "body_vec")]
+    if not dr and len(so) == 1 and len(rp) == 1 and is_cl(so[0][4][2][1]):
+        put = look(rp[0][4][2][1])
+        while put[0] == "mut":
+            put = look(put[1])
+        return norm(put) == norm(so[0][4]) and lf.events.index(so[0]) < lf.events.index(rp[0])
+    return False
+
+
+def body_lin(ctx):
+    """With REM = the remaining-bytes counter on entry, AVAIL = end - start:
+    returning false (more needed): REM > AVAIL is established, buffer[start..end] is appended (or is empty), the counter
+    becomes REM - AVAIL and the cursor 0;  returning true: REM <= AVAIL is established, buffer[start..start+REM] is
+    appended and the line start advances to start + REM."""
+    from ..lin import Lin, State
+    from ..panics import Tr
+    facts = ctx.facts
+    fn, lv = leaves(ctx, conn.PARSE_B, lower=True)
+    REMT = ("field", ("deref", ("arg", 1)), conn.HC, "body_bytes_to_be_read")
+    seen = set()
+
+    def bounds(tr, t):
+        """(lo, hi) of a slice of self.buffer as linear expressions; nested slicings add up"""
+        t = look(t)
+        if not is_call(t, "index"):
+            return None
+        if self_field(t[2][0], "buffer"):
+            lo, hi = Lin.const(0), None
+        else:
+            inner = bounds(tr, t[2][0])
+            if inner is None:
+                return None
+            lo, hi = inner
+        r = look(t[2][1])
+        if r[0] != "agg":
+            return None
+        kind = r[1].split("<")[0]
+        if kind == "std::ops::Range" and len(r[3]) == 2:
+            return lo + tr.lin(r[3][0]), lo + tr.lin(r[3][1])
+        if kind == "std::ops::RangeTo" and len(r[3]) == 1:
+            return lo, lo + tr.lin(r[3][0])
+        if kind == "std::ops::RangeFrom" and len(r[3]) == 1:
+            return lo + tr.lin(r[3][0]), hi
+        return None
+
+    for lf in lv:
+        rk = ret_kind(lf)
+        if rk is None or rk[0] != "Ok":
+            continue
+        st = State()
+        tr = Tr(facts, fn, st)
+        for e in lf.events:
+            if e[0] == "cond":
+                tr.assume_cond(e[3], e[4])
+        START, END, REM = tr.lin(("deref", ("arg", 2))), tr.lin(("arg", 3)), tr.lin(REMT)
+        AVAIL = END - START
+        st.sharpen()
+        if st.inconsistent():
+            continue
+        ext = [e for e in lf.events if e[0] == "call" and last_seg(e[3]) == "extend_from_slice" and self_field(e[4][2][0], "body_vec")]
+        sl = bounds(tr, ext[0][4][2][1]) if len(ext) == 1 else None
+        loc = fn.loc(lf.bb)
+        if look(rk[1]) == ("const", False):
+            seen.add("partial")
+            more = st.entails_le(AVAIL + Lin.const(1) - REM)
+            ok = more and sl is not None and sl[1] is not None and st.entails_eq(sl[0] - START) and st.entails_eq(sl[1] - END)
+            cur = conn.assigns_to(lf, "read_cursor")
+            okc = len(cur) == 1 and cur[0][4] == ("const", 0)
+            rem = conn.assigns_to(lf, "body_bytes_to_be_read")
+            okr = len(rem) == 1 and st.entails_eq(tr.lin(rem[0][4]) - REM + AVAIL)
+            if more and not ext and not rem and st.entails_eq(AVAIL):
+                ok, okr = True, True        # nothing to append: the window is empty
+            ctx.ob("R01.5", "partial|append-all-and-restart", ok and okc, "partial body (REM > end - start established: %s): buffer[start..end] is appended and the cursor restarts at 0 (append %s, cursor %s)" % (more, ok, okc), loc)
+            ctx.ob("R01.5", "partial|remaining-decreased", okr, "the remaining-bytes counter becomes REM - (end - start)", loc)
+        elif look(rk[1]) == ("const", True):
+            seen.add("complete")
+            fits = st.entails_le(REM - AVAIL)
+            ok = fits and sl is not None and sl[1] is not None and st.entails_eq(sl[0] - START) and st.entails_eq(sl[1] - START - REM)
+            adv = [e for e in lf.events if e[0] == "assign" and e[3] == "(*_2)"]
+            oka = len(adv) == 1 and st.entails_eq(tr.lin(adv[0][4]) - START - REM)
+            okd = _body_taken(lf)
+            sta = conn.assigns_to(lf, "state")
+            oks = len(sta) == 1 and sta[0][4][0] == "agg" and sta[0][4][2] == "RequestReady"
+            ctx.ob("R01.5", "complete|append-exactly-remaining", ok and oka, "completing body (REM <= end - start established: %s): exactly buffer[start..start+REM] is appended and the line start advances to start+REM (append %s, advance %s)" % (fits, ok, oka), loc)
+            ctx.ob("R01.5", "complete|body-is-first-content-length-bytes", okd and oks, "the body is the first content_length bytes of body_vec (drain(..n), or split_off(n) + replace), the rest stays, and the state becomes RequestReady", loc)
+    ctx.ob("R01.5", "covered", seen == {"partial", "complete"}, "body paths: %s" % sorted(seen), fn.loc(0))
+
+
+def _body_shape(ctx):
     fn, lv = leaves(ctx, conn.PARSE_B)
 
     def is_start(t):
@@ -280,15 +404,11 @@ def body(ctx):
                 ok = r is not None and is_start(r[0]) and start_plus_remaining(r[1])
             adv = [e for e in lf.events if e[0] == "assign" and e[3] == "(*_2)"]
             oka = len(adv) == 1 and start_plus_remaining(adv[0][4])
-            dr = [e for e in lf.events if e[0] == "call" and last_seg(e[3]) == "drain" and self_field(e[4][2][0], "body_vec")]
-            okd = len(dr) == 1
-            if okd:
-                r = look(dr[0][4][2][1])
-                okd = r[0] == "agg" and r[1].startswith("std::ops::RangeTo") and look(r[3][0])[0] == "cast" and is_call(look(look(r[3][0])[1]), "common::headers::Headers::content_length")
+            okd = _body_taken(lf)
             st = conn.assigns_to(lf, "state")
             oks = len(st) == 1 and st[0][4][0] == "agg" and st[0][4][2] == "RequestReady"
             ctx.ob("R01.5", "complete|append-exactly-remaining", ok and oka, "completing body: exactly buffer[start..start+remaining] is appended and the line start advances to start+remaining (append %s, advance %s)" % (ok, oka), fn.loc(lf.bb))
-            ctx.ob("R01.5", "complete|body-is-first-content-length-bytes", okd and oks, "the body is body_vec.drain(..content_length) and the state becomes RequestReady", fn.loc(lf.bb))
+            ctx.ob("R01.5", "complete|body-is-first-content-length-bytes", okd and oks, "the body is the first content_length bytes of body_vec (drain(..n), or split_off(n) + replace), the rest stays, and the state becomes RequestReady", fn.loc(lf.bb))
     ctx.ob("R01.5", "covered", seen == {"partial", "complete"}, "body paths: %s" % sorted(seen), fn.loc(0))
 
 
